@@ -92,7 +92,7 @@ impl Property for C15 {
         // a clock decades away from the wall clock
         let base_now: i64 = 3_786_912_000 * NS + rng.irange(0, 400 * DAY) * NS + rng.irange(0, NS - 1);
         let kind = rng.weighted(&[55, 10, 10, 25]);
-        let nfiles = rng.urange(1, 6);
+        let mut nfiles = rng.urange(1, 6);
         let mut files = vec![];
         let mut now_rel_ctime = None;
         let mut placements: Vec<Placement> = vec![];
@@ -101,6 +101,11 @@ impl Property for C15 {
         match kind {
             0 => {
                 let which = *rng.pick(&['a', 'c', 'm']);
+                if which == 'c' {
+                    // one file: the clock is placed relative to its real ctime,
+                    // which makes the run independent of the kernel clock's ticks
+                    nfiles = 1;
+                }
                 let minutes = rng.chance(1, 2);
                 let period = if minutes { 60 } else { DAY };
                 let k = match rng.weighted(&[3, 3, 3, 1]) {
@@ -143,6 +148,7 @@ impl Property for C15 {
                 let x = *rng.pick(&['a', 'c']);
                 test = Test::ShortNewer { x };
                 if x == 'c' {
+                    nfiles = 1;
                     // entry.c is the real time of the run: put ref.m around it
                     placements.push(Placement {
                         file: None,
@@ -164,6 +170,9 @@ impl Property for C15 {
                 let x = *rng.pick(&['a', 'c', 'm']);
                 let y = *rng.pick(&['a', 'c', 'm']);
                 test = Test::NewerXY { x, y };
+                if x == 'c' && y != 'c' {
+                    nfiles = 1;
+                }
                 // reference file with three different timestamps
                 let ra = base_now - rng.irange(1, 500) * DAY * NS + rng.irange(0, NS - 1);
                 let rm = ra + *rng.pick(&[-300, -7, 7, 300]) * DAY * NS;
@@ -187,14 +196,12 @@ impl Property for C15 {
                 if y == 'c' && x != 'c' {
                     // ref.c is the real time of the run: place entries' X around it
                     for i in 0..nfiles {
-                        if rng.chance(2, 3) {
-                            placements.push(Placement {
-                                file: Some(i),
-                                which: x,
-                                anchor: None,
-                                delta: *rng.pick(&[-NS, -1, 0, 1, NS]),
-                            });
-                        }
+                        placements.push(Placement {
+                            file: Some(i),
+                            which: x,
+                            anchor: None,
+                            delta: *rng.pick(&[-NS, -1, 0, 1, NS, -3 * DAY * NS, 3 * DAY * NS]),
+                        });
                     }
                 } else if x == 'c' && y != 'c' {
                     // entry.c is real: place ref.Y around the ctime of one entry
@@ -298,6 +305,14 @@ impl Property for C15 {
             'c' => t.1,
             _ => t.2,
         };
+        // ctime cannot be set. Scenarios with one real ctime are anchored to it
+        // (single file, or every file placed relative to the reference's
+        // ctime) and are reproducible. -newercc compares two real ctimes: the
+        // kernel clock's tick decides whether two files created microseconds
+        // apart share a ctime, so the outcome of such a run is judged against
+        // the values read back but is not replay-deterministic; its output is
+        // kept out of the abstract trace and its probes are prefixed rt_.
+        let rt = matches!(&sc.test, Test::NewerXY { x: 'c', y: 'c' });
         // reference evaluation, exact in integer nanoseconds
         let mut expected: Vec<Option<bool>> = vec![];
         for t in &stamps {
@@ -309,14 +324,16 @@ impl Property for C15 {
                     } else {
                         let period = if *minutes { 60 } else { DAY } as i128 * NS as i128;
                         let periods = (age / period) as u64;
-                        rep.sim_time_s += age as f64 / 1e9;
+                        if !rt {
+                            rep.sim_time_s += age as f64 / 1e9;
+                        }
                         let rem = age % period;
                         if rem == 0 {
-                            rep.probe("age_exactly_k_periods");
+                            rep.probe(if rt { "rt_age_exactly_k_periods" } else { "age_exactly_k_periods" });
                         } else if rem == 1 || rem == period - 1 {
-                            rep.probe("age_one_nanosecond_from_boundary");
+                            rep.probe(if rt { "rt_age_one_nanosecond_from_boundary" } else { "age_one_nanosecond_from_boundary" });
                         } else if rem <= NS as i128 || rem >= period - NS as i128 {
-                            rep.probe("age_within_one_second_of_boundary");
+                            rep.probe(if rt { "rt_age_within_one_second_of_boundary" } else { "age_within_one_second_of_boundary" });
                         }
                         Some(match cmp {
                             '+' => periods > *n,
@@ -337,9 +354,9 @@ impl Property for C15 {
                     _ => unreachable!(),
                 };
                 if l == r {
-                    rep.probe("timestamps_exactly_equal");
+                    rep.probe(if rt { "rt_timestamps_exactly_equal" } else { "timestamps_exactly_equal" });
                 } else if (l - r).abs() == 1 {
-                    rep.probe("timestamps_one_nanosecond_apart");
+                    rep.probe(if rt { "rt_timestamps_one_nanosecond_apart" } else { "timestamps_one_nanosecond_apart" });
                 }
             }
             expected.push(e);
@@ -359,6 +376,9 @@ impl Property for C15 {
             rep.trace.byte(*cmp as u8);
         }
         for (t, e) in stamps.iter().zip(&expected) {
+            if rt {
+                break;
+            }
             rep.trace.byte(match e {
                 None => 2,
                 Some(true) => 1,
@@ -383,7 +403,11 @@ impl Property for C15 {
         find.now_ns = Some(now as i64);
         let obs = run_find_prebuilt(&find, ctx, root);
         rep.executions += 1;
-        account_find(&obs, rep);
+        if rt {
+            rep.probe("rt_both_sides_are_real_ctimes");
+        } else {
+            account_find(&obs, rep);
+        }
         if let RunStatus::Panic(msg) = &obs.status {
             rep.fail("C15.panic", format!("argv {argv:?}: {msg}"));
             return;
